@@ -1,7 +1,7 @@
 """C19 driver: materialises abstract file sets on the four real backends (VirtualFileSystem,
 ZipFileSystem in memory, VPKFileSystem from a VPK written by the encoder below, RawFileSystem)
 and real FileSystemChains, runs look-ups and walks, and logs what happened.  Modes:
-  single <maxfiles> <out>         every file set over the model's names x 4 backends
+  single <maxrep> <out>           the sequence family SeqFamily(maxrep) of specs/FsSem x backends x concretisations
   edges <edges.json> <out> [nproc part]   every add_sys transition of specs/FsSem replayed on a real chain
   random <out>                    seeded random file sets / chains beyond the model's bounds
   replay <replay.json> <out>      re-execute the record stored in a replay file
@@ -60,7 +60,7 @@ def conc_field(ci: int) -> list:
 
 
 # ------------------------------------------------------------------ the harness's own VPK encoder
-def encode_vpk(files: list, footer: bool = False) -> bytes:
+def encode_vpk(files: list, footer: bool = False, sep: str = '/') -> bytes:
     """VPK version 1 directory file, written from the format description: a tree
     extension -> folder -> file name of NUL-terminated strings (' ' stands for an empty
     string, an empty string ends a level), each file followed by
@@ -68,7 +68,7 @@ def encode_vpk(files: list, footer: bool = False) -> bytes:
     preload bytes.  Archive index 0x7fff = data stored after the tree of this very file."""
     tree: dict = {}
     for comps, data in files:
-        folder = '/'.join(comps[:-1])
+        folder = sep.join(comps[:-1])
         base = comps[-1]
         name, ext = base.rsplit('.', 1) if '.' in base else (base, '')
         tree.setdefault(ext, {}).setdefault(folder, []).append((name, data))
@@ -95,37 +95,65 @@ def encode_vpk(files: list, footer: bool = False) -> bytes:
 
 
 # ------------------------------------------------------------------ backends
+VARIANTS = {'virtual': ['plain', 'alt', 'bs'], 'zip': ['plain', 'alt', 'bs'], 'vpk': ['plain', 'alt', 'bs'], 'raw': ['plain']}
+
+
+def norm_variant(v) -> str:
+    return v if isinstance(v, str) else ('alt' if v else 'plain')      # (older replay files hold a boolean)
+
+
 class Factory:
     def __init__(self) -> None:
         self.dir = tempfile.mkdtemp(prefix='vc19_', dir='/tmp')
         self.n = 0
         self.cache: dict = {}
 
-    def build(self, backend: str, files: list, footer: bool = False):
-        """files: [(comps, cid)] -> a real filesystem object holding exactly these files.
-        footer = the alternative layout of the fixture (VPK: data after the tree instead of preload;
-        zip: explicit directory entries; virtual: text instead of bytes values; raw: none)."""
-        key = (backend, footer, json.dumps(files))
+    def build(self, backend: str, files: list, variant='plain'):
+        """files: [(comps, cid)] in storing order (names may repeat or differ only in case) -> a real
+        filesystem object holding them, and the positions of `files` in the container's own order.
+        variant: 'plain'; 'alt' = the other layout of the fixture (VPK: data after the tree instead of
+        preload; zip: explicit directory entries; virtual: text instead of bytes values); 'bs' = names
+        stored with backslashes between components (not for the directory backend)."""
+        variant = norm_variant(variant)
+        key = (backend, variant, json.dumps(files))
         if key in self.cache:
             return self.cache[key]
         self.n += 1
-        named = [('/'.join(c), tagged(cid)) for c, cid in files]
+        sep = BS if variant == 'bs' and backend != 'raw' else '/'
+        named = [(sep.join(c), tagged(cid)) for c, cid in files]
+        order = list(range(len(files)))
+        # A mapping, a directory and the VPK tree hold one entry per exact name: storing a name again
+        # replaces the content and keeps the place (what the container then holds, in its own order,
+        # is what the record reports).  A zip keeps every entry.
+        if backend in ('virtual', 'raw'):
+            slot: dict = {}
+            for i, (n, _) in enumerate(named):
+                slot[n] = i
+            order = list(slot.values())
         if backend == 'virtual':
-            # variant: contents given as text instead of bytes
-            fs = VirtualFileSystem({n: (d.decode('utf-8') if footer else d) for n, d in named})
+            fs = VirtualFileSystem({n: (d.decode('utf-8') if variant == 'alt' else d) for n, d in named})
         elif backend == 'zip':
             buf = io.BytesIO()
-            with zipfile.ZipFile(buf, 'w') as zf:
-                if footer:      # variant: the archive also has entries for the directories themselves
-                    for folder in sorted({'/'.join(c[:k]) + '/' for c, _ in files for k in range(1, len(c))}):
-                        zf.writestr(folder, b'')
-                for name, data in named:
-                    zf.writestr(name, data)
+            with warnings.catch_warnings():
+                warnings.simplefilter('ignore')      # "Duplicate name": that is the point
+                with zipfile.ZipFile(buf, 'w') as zf:
+                    if variant == 'alt':
+                        for folder in sorted({'/'.join(c[:k]) + '/' for c, _ in files for k in range(1, len(c))}):
+                            zf.writestr(folder, b'')
+                    for name, data in named:
+                        zf.writestr(name, data)
             fs = ZipFileSystem('<mem>', zipfile=zipfile.ZipFile(io.BytesIO(buf.getvalue())))
         elif backend == 'vpk':
+            # the container's own order is the order of its tree: extension, then folder, then file
+            groups: dict = {}
+            for i, (c, _) in enumerate(files):
+                base = c[-1]
+                ext = base.rsplit('.', 1)[1] if '.' in base else ''
+                groups.setdefault(ext, {}).setdefault(sep.join(c[:-1]), {})[base] = i
+            order = [i for folders in groups.values() for names in folders.values() for i in names.values()]
             path = os.path.join(self.dir, f'p{self.n}.vpk')
             with open(path, 'wb') as f:
-                f.write(encode_vpk([(c, tagged(cid)) for c, cid in files], footer))
+                f.write(encode_vpk([(files[i][0], tagged(files[i][1])) for i in order], variant == 'alt', sep))
             fs = VPKFileSystem(path)
         elif backend == 'raw':
             root = os.path.join(self.dir, f'r{self.n}')
@@ -138,8 +166,8 @@ class Factory:
             fs = RawFileSystem(root)
         else:
             raise ValueError(backend)
-        self.cache[key] = fs
-        return fs
+        self.cache[key] = (fs, order)
+        return fs, order
 
     def cleanup(self) -> None:
         shutil.rmtree(self.dir, ignore_errors=True)
@@ -317,8 +345,10 @@ SINGLE_LOOKUP_NAMES = NAMES_MC + [['b', 'x'], ['a'], ['a', 'b'], ['ab'], ['a', '
 SINGLE_FOLDERS = [[], ['a'], ['A'], ['ab'], ['AB'], ['a', 'b'], ['A', 'B'], ['b'], ['x'], ['X'], ['a', 'x'], ['zz']]
 
 
-def fs_record(fac: Factory, backend: str, files: list, lookups: list, folders: list, src: str, footer=False) -> dict:
-    fs = fac.build(backend, files, footer)
+def fs_record(fac: Factory, backend: str, files: list, lookups: list, folders: list, src: str, footer='plain') -> dict:
+    footer = norm_variant(footer)
+    fs, order = fac.build(backend, files, footer)
+    files = [files[i] for i in order]
     lks = []
     for toks in lookups:
         r = do_lookup(fs, toks)
@@ -331,7 +361,7 @@ def fs_record(fac: Factory, backend: str, files: list, lookups: list, folders: l
             wks.append(do_walk(fs, toks, via_iter=True))
     return {'k': 'fs', 'src': src, 'backend': backend, 'files': [[c, cid] for c, cid in files],
             'fold': fold_table(all_comps(files, lookups + folders), [c for w in wks for it in w['items'] for c in it['n']]),
-            'lookups': lks, 'walks': wks, 'footer': footer, 'ci': 0, 'conc': [], 'afiles': [],
+            'lookups': lks, 'walks': wks, 'footer': footer, 'variant': footer, 'order': order, 'ci': 0, 'conc': [], 'afiles': [],
             'sig': {'kind': 'fs', 'backend': backend, 'src': src}}
 
 
@@ -342,24 +372,43 @@ def folder_toks(folder: list) -> list:
     return out
 
 
-def single_family(out: hlib.RecWriter, fac: Factory, maxfiles: int) -> None:
+def seq_family(maxrep: int) -> list:
+    """specs/FsSem.tla SeqFamily(R): containers as sequences of up to 3 of the model's names, grouped by
+    folded name (groups in a fixed order), every order within a group, repeats up to length R."""
+    key = lambda n: tuple(AbsFoldPy.get(c, c) for c in n)
+    rank = lambda n: min(i for i, x in enumerate(NAMES_MC) if key(x) == key(n))
+    out = []
+    for ln in range(4):
+        for q in itertools.product(NAMES_MC, repeat=ln):
+            if all(rank(q[i]) <= rank(q[j]) for i in range(ln) for j in range(i + 1, ln)) \
+                    and (len({tuple(n) for n in q}) == ln or ln <= maxrep):
+                out.append([list(n) for n in q])
+    return out
+
+
+AbsFoldPy = {'A': 'a', 'X': 'x', 'AB': 'ab', 'B': 'b'}
+
+
+def single_family(out: hlib.RecWriter, fac: Factory, maxrep: int) -> None:
+    seqs = seq_family(maxrep)
     for ci, cm in enumerate(CONC):
         lookups = [t for n in SINGLE_LOOKUP_NAMES for t in spellings(cz(cm, n))]
         folders = [t for f in SINGLE_FOLDERS for t in folder_toks(cz(cm, f))]
-        for n in range(0, maxfiles + 1):
-            for combo in itertools.combinations(NAMES_MC, n):
-                files = [(cz(cm, c), 'k1:' + '/'.join(cz(cm, c))) for c in combo]
-                for backend in BACKENDS:
-                    if backend == 'vpk' and ci:
-                        continue
-                    rec = fs_record(fac, backend, files, lookups, folders, 'exh')
-                    rec['ci'] = ci
-                    rec['conc'] = conc_field(ci)
-                    rec['afiles'] = [list(c) for c in combo]
-                    rec['fold'] = fold_table([c for f in rec['fold'] for c in f[:1]], list(cm.values()),
-                                             all_comps(files, lookups + folders),
-                                             [c for w in rec['walks'] for it in w['items'] for c in it['n']])
-                    out.write(rec)
+        for si, seq in enumerate(seqs):
+            files = [(cz(cm, c), f'k1.{i}:' + '/'.join(cz(cm, c))) for i, c in enumerate(seq)]
+            for bi, backend in enumerate(BACKENDS):
+                if backend == 'vpk' and ci:
+                    continue
+                variant = VARIANTS[backend][(si + bi + ci) % len(VARIANTS[backend])]
+                rec = fs_record(fac, backend, files, lookups, folders, 'exh', variant)
+                rec['ci'] = ci
+                rec['conc'] = conc_field(ci)
+                rec['aseq'] = seq
+                rec['afiles'] = [seq[i] for i in rec['order']]
+                rec['fold'] = fold_table([c for f in rec['fold'] for c in f[:1]], list(cm.values()),
+                                         all_comps(files, lookups + folders),
+                                         [c for w in rec['walks'] for it in w['items'] for c in it['n']])
+                out.write(rec)
 
 
 # ------------------------------------------------------------------ chains
@@ -436,8 +485,10 @@ def chain_record(fac: Factory, pre: list, act: dict, lookups: list, folders: lis
     log: list = []
 
     def member(m):
-        files = [(list(n), f'k{m["k"]}:' + '/'.join(n)) for n in m['names']]
-        return files, fac.build(m['backend'], files, m.get('footer', False))
+        files = [(list(n), f'k{m["k"]}.{i}:' + '/'.join(n)) for i, n in enumerate(m['names'])]
+        fs, order = fac.build(m['backend'], files, m.get('footer', 'plain'))
+        m['order'] = order
+        return [files[i] for i in order], fs
     chain = FileSystemChain()
     spies = {}
     mem_files = {}
@@ -453,7 +504,9 @@ def chain_record(fac: Factory, pre: list, act: dict, lookups: list, folders: lis
     order = [s.idx for s, _ in chain.systems]
     by_k = {m['k']: m for m in pre + [act]}
     members = [{'k': k, 'backend': by_k[k]['backend'], 'pfx': list(by_k[k]['pfx']), 'pfxs': spelled(by_k[k]),
-                'afiles': by_k[k].get('anames', []), 'apfx': by_k[k].get('apfx', []), 'footer': bool(by_k[k].get('footer', False)),
+                'afiles': [by_k[k]['anames'][i] for i in by_k[k]['order']] if by_k[k].get('anames') else [],
+                'apfx': by_k[k].get('apfx', []), 'footer': norm_variant(by_k[k].get('footer', 'plain')),
+                'variant': norm_variant(by_k[k].get('footer', 'plain')),
                 'files': [[c, cid] for c, cid in mem_files[k]]} for k in order]
     pos = {k: i + 1 for i, k in enumerate(order)}
 
@@ -542,10 +595,13 @@ def replay_edges(out: hlib.RecWriter, fac: Factory, edge_file: str, stats: dict,
         cm = CONC[ci]
 
         def member(names, pfx, k):
-            cn = [cz(cm, n) for n in sorted(names)]
-            return {'names': cn, 'anames': [list(n) for n in sorted(names)], 'pfx': cz(cm, pfx), 'apfx': list(pfx), 'k': k,
-                    'pfxs': spell_prefix(cz(cm, pfx), how(k)),
-                    'backend': pick_backend(f'{seed}:{ei}:{k}', cn, ascii_only=(ci == 0))}
+            h = zlib.crc32(f'{seed}:{ei}:{k}:store'.encode())
+            an = sorted(names, reverse=bool(h & 1))      # both storing orders of names that fold alike
+            cn = [cz(cm, n) for n in an]
+            backend = pick_backend(f'{seed}:{ei}:{k}', cn, ascii_only=(ci == 0))
+            return {'names': cn, 'anames': [list(n) for n in an], 'pfx': cz(cm, pfx), 'apfx': list(pfx), 'k': k,
+                    'pfxs': spell_prefix(cz(cm, pfx), how(k)), 'backend': backend,
+                    'footer': (['plain'] * 2 + VARIANTS[backend])[(h >> 1) % (2 + len(VARIANTS[backend]))]}
         pre = [member(m['names'], m['pfx'], m['k']) for m in e['s']]
         act = dict(member(a['names'], a['pfx'], k_new), pr=a['pr'])
         rec = chain_record(fac, pre, act, [cz_toks(cm, t) for t in CHAIN_LOOKUPS], [cz_toks(cm, t) for t in CHAIN_FOLDERS], 'edge')
@@ -589,11 +645,14 @@ def random_tier(out: hlib.RecWriter, fac: Factory, rng: random.Random, n_fs: int
         backend = BACKENDS[i % 4]
         pool = R_NAMES + (R_UNI if backend in ('virtual', 'zip', 'raw') else [])
         names = rng.sample(pool, rng.randint(1, 7))
-        files = [(list(n), f'k1:{"/".join(n)}') for n in names]
+        files = [(list(n), f'k1.{i}:{"/".join(n)}') for i, n in enumerate(names)]
         if backend == 'raw' and not unambiguous(files):
             backend = 'zip'
         lk, fl = queries(files)
-        out.write(fs_record(fac, backend, files, lk, fl, 'rnd', footer=rng.random() < 0.5))
+        if rng.random() < 0.3 and files:      # one name stored twice, with other content
+            c, _ = rng.choice(files)
+            files.append((list(c), f'k1.{len(files)}:{"/".join(c)}'))
+        out.write(fs_record(fac, backend, files, lk, fl, 'rnd', footer=rng.choice(VARIANTS[backend])))
     for i in range(n_chain):
         n_mem = rng.randint(2, 5)
         mems = []
@@ -611,8 +670,10 @@ def random_tier(out: hlib.RecWriter, fac: Factory, rng: random.Random, n_fs: int
                 pfxs += rng.choice(['', '/', '//', BS, '/.'])
             else:
                 pfxs = spell_prefix(pfx, rng.choice(PREFIX_SPELLINGS))
-            mems.append({'names': sorted(names), 'pfx': pfx, 'pfxs': pfxs, 'k': k, 'backend': b,
-                         'footer': rng.random() < 0.5})
+            if names and rng.random() < 0.2:
+                names.append(list(rng.choice(names)))      # one name stored twice
+            mems.append({'names': names, 'pfx': pfx, 'pfxs': pfxs, 'k': k, 'backend': b,
+                         'footer': rng.choice(VARIANTS[b])})
         # build by a random insertion history: the record checks the last add_sys
         pre_order = []
         for m in mems[:-1]:
